@@ -746,6 +746,14 @@ func (g *cacheGen) history() string {
 	}
 	types := []int{1, 1, 28, 12, 16}
 	classes := []int{1, 1, 1, 3, 255}
+	if r.Chance(25) {
+		// question tuples that differ in one high bit only (mDNS "unicast response" class bit,
+		// types sharing their low byte): they are different questions for the upstream and must be
+		// for the cache
+		types = []int{1, 1, 257, 28, 28 + 256, 16}
+		classes = []int{1, 1, 0x8001, 0x8001, 3, 0x8003, 255}
+		c.Stat("hist:high-bit-class-or-type")
+	}
 	nq := 1 + r.Intn(4)
 	var qs []cq
 	for i := 0; i < nq; i++ {
